@@ -440,8 +440,21 @@ class Exec:
         v1, h1 = s1
         v2, h2 = s2
         vars_ = {}
+        joined = {}
         for k in set(v1) | set(v2):
-            vars_[k] = self.merge_vals(c, v1.get(k), v2.get(k))
+            a, b = v1.get(k), v2.get(k)
+            if a is not None and b is not None and a.k == "arr" and b.k == "arr" and a.t is not b.t \
+                    and a.t.ndim == b.t.ndim and a.t.sort == b.t.sort:
+                # a name bound to different arrays in the two branches: a new array that is one or the other
+                r = ArrObj(f"join_{next(self.n)}", a.t.elem, a.t.ndim, self.fm,
+                           shape=[z3.If(c, x, y) for x, y in zip(a.t.shape, b.t.shape)], fresh=True)
+                r.is_bool = getattr(a.t, "is_bool", False) and getattr(b.t, "is_bool", False)
+                r.contig = True if (getattr(a.t, "contig", None) is True and getattr(b.t, "contig", None) is True) else None
+                self.objs[r.id] = r
+                joined[r.id] = z3.If(c, h1[a.t.id], h2[b.t.id])
+                vars_[k] = Val("arr", r, a.ty)
+                continue
+            vars_[k] = self.merge_vals(c, a, b)
         heap = {}
         for k in set(h1) | set(h2):
             a, b = h1.get(k), h2.get(k)
@@ -451,6 +464,7 @@ class Exec:
                 heap[k] = a
             else:
                 heap[k] = z3.If(c, a, b)
+        heap.update(joined)
         self.vars, self.heap = vars_, heap
 
     # ================================================================ expressions
@@ -839,6 +853,13 @@ class Exec:
         return [sl]
 
     def ev_Subscript(self, n):
+        if self.c.py_mode and isinstance(n.value, ast.Name) and isinstance(n.slice, ast.Constant) and \
+                isinstance(n.slice.value, str) and f"{n.value.id}.{n.slice.value}" in self.c.inputs:
+            key = f"{n.value.id}.{n.slice.value}"
+            if key not in self.vars:
+                self.vars[key] = self.make_input(key, self.c.inputs[key])
+                self.entry_vars.setdefault(key, self.vars[key])
+            return self.vars[key]
         base = self.ev(n.value)
         items = self.index_list(n.slice)
         if base.k == "arr":
@@ -901,6 +922,14 @@ class Exec:
         return Val("obj", None, OBJ)
 
     def ev_Attribute(self, n):
+        if self.c.py_mode and isinstance(n.value, ast.Name) and n.value.id != "self":
+            key = f"{n.value.id}.{n.attr}"
+            if key in self.vars:
+                return self.vars[key]
+            if key in self.c.inputs:
+                self.vars[key] = self.make_input(key, self.c.inputs[key])
+                self.entry_vars.setdefault(key, self.vars[key])
+                return self.vars[key]
         if self.c.py_mode and isinstance(n.value, ast.Name) and n.value.id == "self" and "self" not in self.c.inputs:
             key = "self." + n.attr
             if key not in self.vars:
@@ -1067,6 +1096,15 @@ class Exec:
             return Val("none")
         if fn in ("np.zeros", "np.ones", "np.empty"):
             return self.np_alloc(fn, n, kw)
+        if fn == "np.repeat" and self.c.py_mode and len(n.args) == 2 and isinstance(n.args[0], ast.Constant) \
+                and isinstance(n.args[0].value, bool):
+            cnt = self.ev(n.args[1])
+            ln = self.to_int(cnt) if cnt.k in ("int", "bool") else self.fresh("replen")
+            self.assume(ln >= 0)
+            a = self.new_array("repeat", scalar_type("BOOLTYPE_t"), 1, shape=[ln], init=z3.IntVal(int(n.args[0].value)))
+            a.is_bool = True
+            a.contig = True
+            return Val("arr", a, T("arr", elem=a.elem, ndim=1))
         if fn == "np.array":
             return self.np_array(n, kw)
         if fn in ("randint", "rd.randint", "np.random.randint"):
@@ -1518,6 +1556,9 @@ class Exec:
         self.ev(s.value)
 
     def assign_target(self, tgt, val, node):
+        if isinstance(tgt, ast.Name) and self.c.py_mode and val.k in ("obj", "method") and tgt.id in self.c.inputs:
+            self.vars[tgt.id] = self.make_input(tgt.id, self.c.inputs[tgt.id])
+            return
         if isinstance(tgt, ast.Name):
             ty = self.types.get(tgt.id)
             if ty is None and val.k in ("int", "float", "bool", "arr", "obj", "tuple", "func", "none", "ptr", "row", "alloca"):
